@@ -413,6 +413,10 @@ class CompositeFrontend(ConstrainedFrontend):
         if self.satisfiable(extra_constraints=extra_constraints):
             return ()
 
+        if self._unsat:
+            # a concretely false constraint is held by no child (see _add): it is the core
+            return [c for c in self.constraints if c.is_false()]
+
         cores = []
 
         for solver in self._solver_list:
